@@ -184,6 +184,8 @@ func (c Cmd) Shell(label, logPath string) string {
 		return log + ` && (cd $PKG_DIR && for f in *.txt; do if [ -f $f ]; then cat $f; fi; done) > $OUTS`
 	case "usetool": // the outputs of the tools (through $TOOLS), then the sources
 		return log + ` && cat $TOOLS $SRCS /dev/null > $OUTS`
+	case "toolnames": // the base NAMES of the outputs of the tools
+		return log + ` && for t in $TOOLS; do basename $t; done > $OUTS`
 	case "sleepconcat": // like concat but sleeps first (scheduling variety)
 		return log + ` && sleep ` + c.Arg + ` && cat $SRCS /dev/null > $OUTS`
 	}
